@@ -112,23 +112,34 @@ def r04c(ctx):
     is_min = lambda z: z[0] == 'field' and z[2] == 'minimum_chunk'
     is_max = lambda z: z[0] == 'field' and z[2] == 'maximum_chunk'
     is_data_len = lambda z: z[0] in ('len', 'call') and flow.mentions(z, lambda y: y == ('param', 2, 'data'))
-    # (i) the skip: the cur_chunk_len update guarded by cur_chunk_len + W < minimum_chunk
-    guard = edges_where(a, lambda op, l, r: op == 'Lt' and flow.mentions(l, is_cur) and flow.mentions(r, is_min))
+    # (i) the skip: a cur_chunk_len update guarded by `cur_chunk_len (+ window) < threshold` with threshold a configuration
+    # field of the chunker (minimum_chunk, or a precomputed skip length derived from it)
+    thresholds = []
+
+    def guard_pred(op, l, r):
+        if op == 'Lt' and flow.mentions(l, is_cur):
+            fs = [z for z in flow.subtrees(r) if z[0] == 'field' and z[1][0] == 'param' and z[1][1] == 1 and z[2] != 'cur_chunk_len']
+            if fs:
+                thresholds.append(fs[0][2])
+                return True
+        return False
+    guard = edges_where(a, guard_pred)
     ups = []
     for b in sorted(a.cfg.reach0):
         for si, st in enumerate(a.blocks[b]['s']):
             u = paths.additive_update(a, st)
             if u and u[0] == ('self', 'cur_chunk_len') and guard and a.cfg.must_pass(b, via_edges=guard):
                 ups.append((b, si, u[2]))
-    if ctx.check(len(ups) == 1, 'R04c', NEXT, 'skip site', '-', 'one minimum-size skip (cur_chunk_len += ..) under the cur_chunk_len + window < minimum_chunk guard'):
+    if ctx.check(len(ups) == 1, 'R04c', NEXT, 'skip site', '-', 'one minimum-size skip (cur_chunk_len += ..) under a cur_chunk_len < threshold guard (threshold field: %s)' % sorted(set(thresholds))):
         b, si, e = ups[0]
+        is_thr = lambda z: z[0] == 'field' and z[2] in thresholds
         ok = e[0] == 'call' and sg(e[1]).endswith('min') and len(e[2]) == 2
         if ok:
             x, y = e[2]
-            rel = [z for z in (x, y) if _subtracts(z, is_cur, is_min)]
+            rel = [z for z in (x, y) if _subtracts(z, is_cur, is_thr)]
             rem = [z for z in (x, y) if flow.mentions(z, is_data_len) and flow.mentions(z, lambda q: q[0] == 'local')]
             ok = len(rel) == 1 and len(rem) == 1 and rel[0] is not rem[0]
-        ctx.check(ok, 'R04c', NEXT, 'skip bound', a.loc(b, si), 'the skip is min(minimum_chunk - cur_chunk_len - .., input still unconsumed)',
+        ctx.check(ok, 'R04c', NEXT, 'skip bound', a.loc(b, si), 'the skip is min(threshold - cur_chunk_len - .., input still unconsumed)',
                   'the minimum-size skip does not subtract the bytes already in the open chunk (or is not limited by the unconsumed input): boundaries then depend on how the stream is split across calls')
         # the same amount advances the input cursor
         cu = [u2 for bb in sorted(a.cfg.reach0) for s2 in a.blocks[bb]['s'] for u2 in [paths.additive_update(a, s2)] if u2 and len(u2[0]) == 1 and flow.eqv(u2[2], e)]
